@@ -25,6 +25,10 @@ inductive TV where
   | scalar (k : Kind) (text : List Char)
   | list (xs : List TV)
   | ctx (es : List (List Char × TV))
+  /-- every other kind of `Value` (ranges, function definitions, types, …): the last arm of both
+  conversions, `_ => Ok(Default::default())` (`dto.rs:278`) / `_ => Ok(OutputNodeDto { value: None })`
+  (`dto.rs:208`); only the `Display` text is kept -/
+  | other (display : List Char)
   deriving Repr, Inhabited
 
 inductive XsdType where
@@ -81,6 +85,7 @@ def toDto : TV → Dto
   | .scalar k t => .simple (some (xsdOf k)) (some t) false                 -- v.to_string()
   | .list xs => .list (toDtoList xs) false                                 -- ListDto::items(items)
   | .ctx es => .components (toDtoComps es)
+  | .other _ => .empty                                                     -- _ => Ok(Default::default())
 def toDtoList : List TV → DtoList
   | [] => .nil
   | x :: xs => .cons (toDto x) (toDtoList xs)
@@ -168,6 +173,7 @@ def canonical (rd : Readers) : TV → Bool
   | .scalar .dtDuration t => rd.ymDuration t == none && rd.dtDuration t == some t
   | .list xs => canonicalList rd xs
   | .ctx es => canonicalEntries rd es
+  | .other _ => false
 def canonicalList (rd : Readers) : List TV → Bool
   | [] => true
   | x :: xs => canonical rd x && canonicalList rd xs
